@@ -251,3 +251,88 @@ def sample2d_replay(p):
     ov = p.get("outside_value", 0.0)
     r = sample2D(F, np.array([-3.0, 1.5]), np.array([1.0, 1.0]), outside_value=ov)
     return dict(reproduced=bool(r[0] != ov), observed=float(r[0]), expected=ov)
+
+
+def sampling_bounded(p):
+    """Bounded stand-in for the end-to-end clause of C02: real Grid + Forcing on synthetic files; the sampled
+    velocity of a field linear in x, y (global coordinates) is exact, independent of the loaded subgrid, the same
+    for packed and float storage (to packing precision), zero through land faces; scalar = own cell value."""
+    from ladim.ROMS import Forcing, Grid
+    from ladim.state import State
+    from ladim.timekeeper import TimeKeeper
+
+    tier = p.get("tier", "quick")
+    cases, failures, samples = 0, [], []
+    rng = np.random.default_rng(p.get("seed", 0))
+    with Scratch() as d:
+        # u-point (j, i) sits at x = i + 1/2 ; v-point (j, i) at y = j + 1/2 (global grid coordinates)
+        def u(t, tv, K, J, I):
+            return 0.1 + 0.02 * (I + 0.5) - 0.03 * J + 0.05 * K
+
+        def v(t, tv, K, J, I):
+            return -0.2 + 0.01 * I + 0.04 * (J + 0.5) - 0.02 * K
+
+        make_roms_file(d / "lin.nc", imax0=12, jmax0=10, kmax=4, times=[0, 7200], u=u, v=v, h=40.0, extra={"temp": lambda t, tv, K, J, I: 100.0 * K + 10.0 * J + I})
+        make_roms_file(d / "packed.nc", imax0=12, jmax0=10, kmax=4, times=[0, 7200], u=u, v=v, h=40.0, extra={"temp": lambda t, tv, K, J, I: 100.0 * K + 10.0 * J + I}, scale_factor=dict(u=1e-4, v=1e-4, temp=0.5))
+        mask = np.ones((10, 12))
+        mask[4:6, 5] = 0
+        make_roms_file(d / "land.nc", imax0=12, jmax0=10, kmax=4, times=[0, 7200], u=lambda *a: 1.0 + 0 * a[4], v=lambda *a: 1.0 + 0 * a[4], h=40.0, mask=mask)
+        X = np.concatenate([rng.uniform(3.6, 7.4, 30), [4.0, 5.0, 4.5, 6.999999, 3.500001]])
+        Y = np.concatenate([rng.uniform(3.6, 5.4, 30), [4.0, 4.5, 5.0, 5.499999, 3.500001]])
+        Z = np.concatenate([rng.uniform(0, 40, 30), [0.0, 40.0, -3.0, 55.0, 20.0]])
+        ref = {}
+        for fname in ("lin.nc", "packed.nc"):
+            for sub in (None, (2, 10, 2, 8), (3, 9, 3, 7)):
+                timer = TimeKeeper(start="2020-01-01T00:00:00", stop="2020-01-01T02:00:00", dt=600)
+                grid = Grid(d / fname, subgrid=sub)
+                state = State(instance_variables=dict(temp=float), default_values=dict(temp=0.0))
+                state.append(X=X, Y=Y, Z=Z)
+                modules = dict(time=timer, grid=grid, state=state)
+                force = Forcing(modules=modules, filename=d / fname, extra_forcing=["temp"])
+                timer.update()
+                force.update()
+                U, V = force.velocity(state.X, state.Y, state.Z)
+                cases += 1
+                # level weights of the unstretched 4-level column of depth 40: z_k = -40 + (k+1/2)*10
+                zc = np.clip(-Z, -35.0, -5.0)
+                kf = (zc + 35.0) / 10.0  # fractional level index
+                eU = 0.1 + 0.02 * X - 0.03 * Y + 0.05 * kf
+                eV = -0.2 + 0.01 * X + 0.04 * Y - 0.02 * kf
+                tol = 2e-4 if fname == "packed.nc" else 2e-6
+                if np.max(np.abs(U - eU)) > tol or np.max(np.abs(V - eV)) > tol:
+                    failures.append(dict(file=fname, subgrid=sub, what="velocity is not the exact value of the linear field at the particle position", err=float(max(np.max(np.abs(U - eU)), np.max(np.abs(V - eV))))))
+                T = np.asarray(state["temp"])
+                lo = np.minimum(np.floor(kf + 1e-9), 2.0)  # the two bracketing levels (K-1, K), also below/above the level range
+                hi = lo + 1.0
+                okc = np.zeros(len(X), bool)
+                # at an exact half-integer coordinate either neighbouring cell counts as the particle's own cell
+                for I in (np.floor(X + 0.5).astype(int), np.ceil(X - 0.5).astype(int)):
+                    for J in (np.floor(Y + 0.5).astype(int), np.ceil(Y - 0.5).astype(int)):
+                        lev = (T - 10.0 * J - I) / 100.0
+                        okc |= (np.abs(lev - np.round(lev)) < 1e-6) & (np.round(lev) >= lo - 1e-9) & (np.round(lev) <= hi + 1e-9)
+                if not np.all(okc):
+                    bad = np.where(~okc)[0][:3]
+                    failures.append(dict(file=fname, subgrid=sub, what="scalar forcing is not the own cell's value at one of the two bracketing levels", X=X[bad].tolist(), Y=Y[bad].tolist(), Z=Z[bad].tolist(), temp=T[bad].tolist(), kf=kf[bad].tolist()))
+                key = fname
+                if key in ref and (np.max(np.abs(ref[key][0] - U)) > 1e-12 or np.max(np.abs(ref[key][1] - V)) > 1e-12):
+                    failures.append(dict(file=fname, subgrid=sub, what="velocity depends on the loaded subgrid"))
+                ref.setdefault(key, (U.copy(), V.copy()))
+                force.close()
+        # land faces
+        timer = TimeKeeper(start="2020-01-01T00:00:00", stop="2020-01-01T02:00:00", dt=600)
+        grid = Grid(d / "land.nc")
+        state = State()
+        state.append(X=np.array([4.5, 5.5, 4.5, 7.0]), Y=np.array([4.0, 5.0, 6.0, 4.5]), Z=np.full(4, 10.0))
+        force = Forcing(modules=dict(time=timer, grid=grid, state=state), filename=d / "land.nc")
+        timer.update()
+        force.update()
+        U, V = force.velocity(state.X, state.Y, state.Z)
+        cases += 1
+        # X=4.5,Y=4 lies on the u-face between cell (4,4) sea and (4,5) land: u must be 0 there
+        if abs(U[0]) > 1e-12 or abs(U[1]) > 1e-12:
+            failures.append(dict(what="non-zero velocity through a land face", U=U.tolist()))
+        if abs(U[3] - 1.0) > 1e-6:
+            failures.append(dict(what="velocity in open water altered by the mask", U=U.tolist()))
+        force.close()
+        samples.append(dict(field="u = 0.1 + 0.02 x - 0.03 y + 0.05 k", subgrids=3, storage=["float", "packed"], positions=len(X)))
+    return dict(cases=cases, failures=failures[:10], samples=samples, bound="2 storage kinds x 3 subgrids x 35 positions (incl. cell edges/corners, above surface, below bottom); one land mask")
